@@ -41,8 +41,8 @@
  * that is, if you want to avoid space leaks...
  *
  * Current overhead:
- *	sizeof(block_t) per string (string pointer, next pointer, and a short
- *  for refs). Strings are nearly all fairly short, so this is a significant
+ *	sizeof(block_t) per string (string pointer, next pointer, a short for
+ *  the size and an int for refs). Strings are nearly all fairly short, so this is a significant
  *  overhead - there is also the 4 byte malloc overhead and the fact that
  *  malloc generally allocates blocks which are a power of 2 (should write my
  *	own best-fit malloc specialised to strings); then again, GNU malloc
@@ -331,7 +331,7 @@ void free_string (char *str) {
   assert (b == findblock (str)); /* ensure it's a shared string */
 
   /*
-   * if a string has been ref'd USHRT_MAX times then we assume that its used
+   * if a string has been ref'd UINT_MAX times then we assume that its used
    * often enough to justify never freeing it.
    */
   if (!REFS (b)) {
